@@ -62,6 +62,15 @@ def family_s(tier, seed):
     for op in ("/", "<", ">", "=="):
         out.append(dict(src=f"export function f(uint a, uint b) -> {'uint' if op == '/' else 'int'} {{ return a {op} b; }}", name=f"S uint {op} uint (wide)", tags=["S", "wide-uint"]))
         out.append(dict(src=f"export function f(int a, int b) -> int {{ return a {op} b; }}", name=f"S int {op} int (before/after the unsigned one)", tags=["S"]))
+    # one literal used by an unsigned and by a signed operation of the same function (constants are shared per function: the signedness of an
+    # instruction must come from its operands' types, whichever use created the constant), in both orders and operand positions
+    for L in ("1", "2", "7"):
+        for ustmt in ("u++;", "--u;", f"u = u / {L};", f"u = u + {L};", f"u = {L} < u;"):
+            for iexpr in (f"{L} < i", f"{L} > i", f"{L} / i", f"i / {L}", f"i < {L}", f"i > {L}", f"{L} == i"):
+                if L != "1" and ustmt in ("u++;", "--u;"):
+                    continue
+                out.append(dict(src=f"export function f(uint u, int i) -> int {{ {ustmt} return {iexpr}; }}", name=f"S shared literal {L}: `{ustmt}` then `{iexpr}`", tags=["S", "signedness"]))
+                out.append(dict(src=f"export function f(uint u, int i) -> int {{ i = {iexpr}; {ustmt} return i; }}", name=f"S shared literal {L}: `{iexpr}` then `{ustmt}`", tags=["S", "signedness"]))
     out.append(dict(src="export function f() -> int { return K0; }", name="S K", tags=["S", "wide-constant"]))
     out.append(dict(src="export function f(int a) -> int { a = K0; return a; }", name="S store K to argument", tags=["S", "wide-constant"]))
     out.append(dict(src="export function f(int a, int b) -> int { a = a + b; b = a * K0; return a - b; }", name="S argument stores", tags=["S"]))
